@@ -28,6 +28,13 @@ void pid_resize(struct LinearSequencer *self, size_t n)
 __CPROVER_requires(n <= self->out_point_ids.cap)
 __CPROVER_ensures(self->out_point_ids.size == n)
 __CPROVER_assigns(self->out_point_ids.size, __CPROVER_object_whole(self->out_point_ids.data));
+void pid_push_back(struct LinearSequencer *self, uint32_t v)
+__CPROVER_requires(self->out_point_ids.size < self->out_point_ids.cap)
+__CPROVER_ensures(self->out_point_ids.size == __CPROVER_old(self->out_point_ids.size) + 1 && self->out_point_ids.data[__CPROVER_old(self->out_point_ids.size)] == v)
+__CPROVER_ensures(ghost_k < 0 || (size_t)ghost_k >= __CPROVER_old(self->out_point_ids.size) || self->out_point_ids.data[ghost_k] == __CPROVER_old(self->out_point_ids.data[ghost_k >= 0 && (size_t)ghost_k < self->out_point_ids.cap ? ghost_k : 0]))
+__CPROVER_assigns(self->out_point_ids.size, __CPROVER_object_whole(self->out_point_ids.data));
+void pid_reserve(struct LinearSequencer *self, size_t n) __CPROVER_requires(n <= self->out_point_ids.cap) __CPROVER_ensures(1) __CPROVER_assigns();
+void pid_clear(struct LinearSequencer *self) __CPROVER_ensures(self->out_point_ids.size == 0) __CPROVER_assigns(self->out_point_ids.size);
 /* the sequence of the sequential codecs: refused for a negative count, otherwise exactly num_points ids, id k at position k */
 bool LinearSequencer_GenerateSequenceInternal(struct LinearSequencer *self)
 __CPROVER_requires(__CPROVER_is_fresh(self, sizeof(struct LinearSequencer)) && self->out_point_ids.cap >= 1 && self->out_point_ids.cap <= ((size_t)1 << 31) && \
